@@ -34,7 +34,7 @@ Definition cfuncs (l : list (lit * Z * execblock)) : Prop := forallb (fun m : li
 
 Definition pre (n : nt) : Prop :=
   match n with
-  | NLv1Tail _ el | NLv2Tail _ el | NArithTail el | NMulDivTail el | NMemberTail el => complete_expr el = true
+  | NLv1Tail _ el | NLv2Tail _ el | NLv3Tail _ el | NArithTail el | NMulDivTail el | NMemberTail el => complete_expr el = true
   | NArrayItems acc | NExprList acc => cexprs acc
   | NMapItems acc => ckv acc
   | NChain acc => ccalls acc
@@ -51,7 +51,7 @@ Definition pre (n : nt) : Prop :=
 
 Definition post (n : nt) : ty n -> Prop :=
   match n as n0 return ty n0 -> Prop with
-  | NExpr _ | NLv1Tail _ _ | NLv2 _ | NLv2Tail _ _ | NLv3 _ | NLv4 _ | NArith | NArithTail _ | NMulDiv | NMulDivTail _
+  | NExpr _ | NLv1Tail _ _ | NLv2 _ | NLv2Tail _ _ | NLv3 _ | NLv3Tail _ _ | NLv4 _ | NArith | NArithTail _ | NMulDiv | NMulDivTail _
   | NMember | NMemberTail _ | NBasic | NArray | NArrayItems _ | NMapItems _ | NMethodCall | NObjNew =>
       fun e => complete_expr e = true
   | NFuncCall _ => fun c => complete_call c = true
@@ -97,7 +97,8 @@ Proof.
   - (* NLv1Tail *) bd H. destruct a as [tk|]; [|rt H; auto]. bd H. ih B0. ih H; fin.
   - (* NLv2 *) bd H. ih B. ih H; fin.
   - (* NLv2Tail *) bd H. destruct a as [tk|]; [|rt H; auto]. bd H. ih B0. ih H; fin.
-  - (* NLv3 *) bd H. ih B. bd H. destruct a0 as [tk|]; [|rt H; auto]. bd H. rt H. ih B1; fin.
+  - (* NLv3 *) bd H. ih B. ih H; fin.
+  - (* NLv3Tail *) bd H. destruct a as [tk|]; [|rt H; auto]. bd H. ih B0. ih H; fin.
   - (* NLv4 *) bd H. ih B. bd H. destruct a0 as [tk|]; [|rt H; auto].
     destruct (assignable a); [|discriminate]. bd H. rt H. ih B1; fin.
   - (* NArith *) bd H. ih B. ih H; fin.
